@@ -82,6 +82,9 @@ def main(tier, replay=None):
         if kind != "Tuple":
             camp.run(seqgen.header("Probe", list(range(8))), [seqgen.random_history(rng, kind, 8, big(), maxlen=ml)
                                                               for _ in range(nexec)], "random/%s/Probe" % kind, variant=kind)
+            # 12-byte records without Swap / Assign instances of their own: the library's byte-wise defaults move them
+            camp.run(seqgen.header("Odd12", list(range(-3, 5))), [seqgen.random_history(rng, kind, 8, big(), maxlen=ml)
+                                                                  for _ in range(max(4, nexec // 2))], "random/%s/Odd12" % kind, variant=kind)
 
     chk.cov["rule"] = ("an execution = one history of public calls on real Arrays/Lists/Tuples; distinct = different "
                        "operation sequence, kind or element type; every event carries len, get(i), get(-i), mem of every "
